@@ -2,15 +2,21 @@
   Line-protocol front end of the schedule models (C03/C04).
 
     sched.blocks <start y-m-d> <enc>                      -> n|t0,t1,..|kw,kw|kw|...   | err
+    sched.rblocks <start y-m-d> <rstep> <rtime> <skiprest 0|1> <enc>
+                                                          -> the same for a restarted run | err
     sched.obs <k> <consts> <start> <enc>                  -> observation of state k | none | err
     sched.apply <k> <consts> <start> <enc> <apps>         -> observation of state k after applying
                                                              <apps> = n:action:W1/W2,... in order
     sched.inline <consts> <start> <enc> <apps>            -> the inlined schedule re-encoded (model side only)
 
   <enc>    = keyword;keyword;...   keyword = NAME=rec|rec|...   rec = field,field,...
-  <consts> = one,zero,bhpProd,bhpInj (hex tokens)
+  <consts> = one,zero,bhpProd,bhpInj,num0,siP,siLRate,siTime,bhpProdSI,bhpHistSI,bhpInjHSI (hex tokens)
+
+  Numbers are hex bit patterns; the model builds symbolic expressions `mul(a,b)` / `add(a,b)` over
+  them, which `evalVal` evaluates here in IEEE double arithmetic (same operation order as the C++).
 -/
 import OpmVerif.Model.SchedAction
+import OpmVerif.Model.Basic
 -- driver: prefix=sched handler=OpmVerif.Sched.handleOp
 
 namespace OpmVerif.Sched
@@ -27,7 +33,7 @@ def parseCState (s : String) : Option Nat :=
 def prodMode (s : String) : Option Nat :=
   if s = "ORAT" then some 1 else if s = "WRAT" then some 2 else if s = "GRAT" then some 4
   else if s = "LRAT" then some 8 else if s = "RESV" then some 32 else if s = "GRUP" then some 256
-  else if s = "BHP" then some 64 else none
+  else if s = "BHP" then some 64 else if s = "NONE" then some 0 else none
 
 def injMode (s : String) : Option Nat :=
   if s = "RATE" then some 1 else if s = "RESV" then some 2 else if s = "BHP" then some 4
@@ -38,10 +44,22 @@ def grpMode (s : String) : Option Nat :=
   else if s = "GRAT" then some 4 else if s = "LRAT" then some 8 else if s = "RESV" then some 32
   else if s = "FLD" then some 128 else none
 
+def optNat (s : String) : Option Nat := if s = "*" then none else some s.toNat!
+def natOr0 (s : String) : Nat := if s = "*" then 0 else s.toNat!
+
+def hexStr (s : String) : String :=
+  match ofHex s with
+  | some bs => String.ofList (bs.map fun b => Char.ofNat b.toNat)
+  | none => s
+
 def parseROp (name : String) (f : List String) : Option ROp :=
   match name, f with
-  | "WELSPECS", [n, g, i, j] => some (.welspecs n g i.toNat! j.toNat!)
+  | "WELSPECS", [n, g, i, j] => some (.welspecs n g (optNat i) (optNat j))
   | "COMPDAT", [p, i, j, k1, k2, st] => (parseCState st).map fun s => .compdat p i.toNat! j.toNat! k1.toNat! k2.toNat! s
+  | "COMPLUMP", [p, i, j, k1, k2, n] => some (.complump p i.toNat! j.toNat! k1.toNat! k2.toNat! n.toNat!)
+  | "WPIMULT", [p, v, i, j, k, c1, c2] =>
+    if [i, j, k, c1, c2].all (· = "*") then some (.wpimultG p v)
+    else some (.wpimultC p v (natOr0 i) (natOr0 j) (natOr0 k) (natOr0 c1) (natOr0 c2))
   | "WCONPROD", [p, st, cm, o, w, g, l, r, b] =>
     match parseStatus st with
     | none => none
@@ -53,15 +71,39 @@ def parseROp (name : String) (f : List String) : Option ROp :=
     match parseStatus st, injMode cm with
     | some s, some c => some (.wconinje { pat := p, itype := ty, status := s, cmode := c, rate := optTok ra, resv := optTok re, bhp := optTok b })
     | _, _ => none
+  | "WCONHIST", [p, st, cm, o, w, g, b] =>
+    match parseStatus st with
+    | none => none
+    | some s =>
+      let cmode := if cm = "*" then some none else (prodMode cm).map some
+      cmode.map fun c => .wconhist { pat := p, status := s, cmode := c, orat := o, wrat := w, grat := g, bhp := optTok b }
+  | "WCONINJH", [p, ty, st, ra, b, cm] =>
+    match parseStatus st with
+    | some s => some (.wconinjh { pat := p, itype := ty, status := s, rate := optTok ra, bhp := optTok b,
+                                  cmode := (injMode cm).getD 0 })
+    | none => none
+  | "WHISTCTL", [m] => (prodMode m).map .whistctl
   | "WELOPEN", [p, st] => (parseStatus st).map fun s => .welopenW p s
-  | "WELOPEN", [p, st, i, j, k] => some (.welopenC p (parseCState st) i.toNat! j.toNat! k.toNat!)
+  | "WELOPEN", [p, st, i, j, k] => some (.welopenC p (parseCState st) i.toNat! j.toNat! k.toNat! 0 0)
+  | "WELOPEN", [p, st, i, j, k, c1, c2] => some (.welopenC p (parseCState st) i.toNat! j.toNat! k.toNat! c1.toNat! c2.toNat!)
   | "WELTARG", [p, m, v] => some (.weltarg p m v)
   | "WEFAC", [p, v] => some (.wefac p v)
+  | "WECON", [p, o, c, wo] => some (.wecon p o c wo)
+  | "WTEST", [p, iv, rs, n, su] => some (.wtest p iv (if rs = "-" then "" else rs) n.toNat! su)
+  | "WLIST", n :: a :: ws => some (.wlist n a ws)
   | "GRUPTREE", [c, p] => some (.gruptree c p)
   | "GEFAC", [p, v] => some (.gefac p v)
   | "GCONPROD", [p, cm, o, w, g, l, ex] =>
     (grpMode cm).map fun c => .gconprod { pat := p, cmode := c, oil := optTok o, water := optTok w, gas := optTok g,
                                           liquid := optTok l, exceed := ex ≠ "NONE" }
+  | "GCONINJE", [p, ph, cm, su, re, ri, vo, fr] =>
+    some (.gconinje { pat := p, phase := ph, cmode := cm, surface := optTok su, resv := optTok re, reinj := optTok ri,
+                      voidage := optTok vo, free := fr = "YES" })
+  | "NEXTSTEP", [v, a] => some (.nextstep v (a = "YES"))
+  | "UDQ", [a, q, d] =>
+    let act := if a = "ASSIGN" then some UdqAct.assign else if a = "DEFINE" then some UdqAct.define
+               else if a = "UNITS" then some UdqAct.units else none
+    act.map fun x => .udq x q (hexStr d)
   | _, _ => none
 
 def parseDate (s : String) : Option Date :=
@@ -80,6 +122,10 @@ def parseDur (s : String) : Option Dur :=
 def allSome {α} (l : List (Option α)) : Option (List α) :=
   if l.all Option.isSome then some (l.filterMap id) else none
 
+def modelled : List String :=
+  ["WELSPECS", "COMPDAT", "COMPLUMP", "WPIMULT", "WCONPROD", "WCONINJE", "WCONHIST", "WCONINJH", "WHISTCTL", "WELOPEN",
+   "WELTARG", "WEFAC", "WECON", "WTEST", "WLIST", "GRUPTREE", "GEFAC", "GCONPROD", "GCONINJE", "NEXTSTEP", "UDQ"]
+
 def parseKw (s : String) : Option (Kw CKw) :=
   match s.splitOn "=" with
   | [name, body] =>
@@ -89,7 +135,7 @@ def parseKw (s : String) : Option (Kw CKw) :=
     else if name = "SCHEDULE" then some .schedule
     else if name = "ACTIONX" then some (.other (.actionx body))
     else if name = "ENDACTIO" then some (.other .endactio)
-    else if ["WELSPECS", "COMPDAT", "WCONPROD", "WCONINJE", "WELOPEN", "WELTARG", "WEFAC", "GRUPTREE", "GEFAC", "GCONPROD"].contains name then
+    else if modelled.contains name then
       (allSome (recs.map fun r => parseROp name (r.splitOn ","))).map fun rs => .other (.ops name rs)
     else some (.other (.ops name []))
   | _ => none
@@ -99,10 +145,60 @@ def parseEnc (s : String) : Option (List (Kw CKw)) :=
 
 def parseConsts (s : String) : Option Consts :=
   match s.splitOn "," with
-  | [a, b, c, d] => some { one := a, zero := b, bhpProd := c, bhpInj := d }
+  | [a, b, c, d, e, f, g, h, i, j, l] =>
+    some { one := a, zero := b, bhpProd := c, bhpInj := d, num0 := e, siP := f, siLRate := g, siTime := h,
+           bhpProdSI := i, bhpHistSI := j, bhpInjHSI := l }
   | _ => none
 
 def parseStart (s : String) : Option Time := (parseDate s).map fun d => d.seconds * 1000
+
+/-! evaluation of the symbolic number expressions -/
+
+def hexNat (s : String) : Option Nat :=
+  s.toList.foldl (fun acc c => match acc, hexVal c with
+    | some a, some v => some (a * 16 + v)
+    | _, _ => none) (some 0)
+
+def hex16 (n : Nat) : String :=
+  String.ofList ((List.range 16).reverse.map fun i => hexDigit ((n / 16 ^ i) % 16))
+
+/-- Split `a,b)` at the top-level comma; returns (a, b) without the closing parenthesis. -/
+def splitArgs (cs : List Char) : Option (String × String) :=
+  let rec go : List Char → Nat → List Char → Option (String × String)
+    | [], _, _ => none
+    | c :: r, depth, acc =>
+      if c = ',' ∧ depth = 0 then
+        -- the rest ends with the closing parenthesis of this call
+        some (String.ofList acc.reverse, String.ofList r.dropLast)
+      else if c = '(' then go r (depth + 1) (c :: acc)
+      else if c = ')' then go r (depth - 1) (c :: acc)
+      else go r depth (c :: acc)
+  go cs 0 []
+
+def evalF : Nat → String → Option Float
+  | 0, _ => none
+  | fuel + 1, s =>
+    if s.startsWith "mul(" then
+      match splitArgs (s.drop 4).toString.toList with
+      | some (a, b) => match evalF fuel a, evalF fuel b with
+        | some x, some y => some (x * y)
+        | _, _ => none
+      | none => none
+    else if s.startsWith "add(" then
+      match splitArgs (s.drop 4).toString.toList with
+      | some (a, b) => match evalF fuel a, evalF fuel b with
+        | some x, some y => some (x + y)
+        | _, _ => none
+      | none => none
+    else if s.length = 16 then (hexNat s).map fun n => Float.ofBits n.toUInt64
+    else none
+
+def evalVal (s : Val) : String :=
+  if s.startsWith "mul(" || s.startsWith "add(" then
+    match evalF (s.length + 1) s with
+    | some x => hex16 x.toBits.toNat
+    | none => "bad(" ++ s ++ ")"
+  else s
 
 /-! printing -/
 
@@ -112,33 +208,77 @@ def statusCode : Status → Nat
 def connKey (c : Conn) : Nat := (c.i * 100000 + c.j) * 100000 + c.k
 
 def showConns (cs : List Conn) : String :=
-  "/".intercalate ((cs.mergeSort fun a b => connKey a ≤ connKey b).map fun c => s!"{c.i}.{c.j}.{c.k}.{c.state}")
+  "/".intercalate ((cs.mergeSort fun a b => connKey a ≤ connKey b).map fun c =>
+    s!"{c.i}.{c.j}.{c.k}.{c.state}.{c.complnum}.{evalVal c.pimult}")
 
-def showWell (s : State) (nw : String × WellP) : String :=
+def b01 (b : Bool) : String := if b then "1" else "0"
+
+def showWellCore (status : Nat) (conns : String) (nw : String × WellP) : String :=
   let (n, w) := nw
-  let role := if w.producer then
-      s!"P,{w.prod.cmode},{w.prod.ctrl},{w.prod.orat},{w.prod.wrat},{w.prod.grat},{w.prod.lrat},{w.prod.resv},{w.prod.bhp}"
-    else s!"I,{w.inj.itype},{w.inj.cmode},{w.inj.ctrl},{w.inj.rate},{w.inj.resv},{w.inj.bhp}"
-  s!"W:{n},{w.group},{statusCode (statusOf s.st n)},{role},{w.efac},{showConns (connsOf s.c n)}"
+  let p := w.prod
+  let i := w.inj
+  let ps := s!"P({p.cmode},{p.ctrl},{b01 p.pred},{evalVal p.orat},{evalVal p.wrat},{evalVal p.grat},{evalVal p.lrat},{evalVal p.resv},{evalVal p.bhp},{evalVal p.bhpLim},{b01 p.bhpLimDef},{evalVal p.bhph},{p.whist})"
+  let is := s!"I({i.itype},{i.cmode},{i.ctrl},{b01 i.pred},{evalVal i.rate},{evalVal i.resv},{evalVal i.bhp},{evalVal i.bhpLim},{evalVal i.bhph})"
+  let es := s!"E({evalVal w.econ.1},{evalVal w.econ.2.1},{w.econ.2.2})"
+  s!"W:{n},{w.group},{status},{if w.producer then "P" else "I"},{b01 w.wpred},{w.headI}.{w.headJ},{ps},{is},{evalVal w.efac},{es},{conns}"
+
+/-- A well's line: its properties, its status (`statusOf`) and its connections. -/
+def showWell (s : State) (nw : String × WellP) : String :=
+  showWellCore (statusCode (statusOf s.st nw.1)) (showConns (connsOf s.c.m nw.1)) nw
+
+def showGInj (g : GroupP) : String :=
+  "/".intercalate (["WATER", "GAS", "OIL"].filterMap fun ph =>
+    (lookup g.ginj ph).map fun x =>
+      s!"{ph}:{x.cmode}:{x.ctrl}:{evalVal x.surface}:{evalVal x.resv}:{evalVal x.reinj}:{evalVal x.voidage}:{b01 x.avail}")
 
 def showGroup (ng : String × GroupP) : String :=
   let (n, g) := ng
-  s!"G:{n},{g.parent},{g.gefac},{g.cmode},{g.ctrl},{g.oil},{g.water},{g.gas},{g.liquid},[{"/".intercalate g.groups}],[{"/".intercalate g.wells}]"
+  s!"G:{n},{g.parent},{evalVal g.gefac},{g.cmode},{g.ctrl},{evalVal g.oil},{evalVal g.water},{evalVal g.gas},{evalVal g.liquid},[{"/".intercalate g.groups}],[{"/".intercalate g.wells}],J({showGInj g})"
 
 def kwName : CKw → String
   | .ops n _ => n
   | .actionx _ => "ACTIONX"
   | .endactio => "ENDACTIO"
 
+def sortByKey {α} (m : List (String × α)) : List (String × α) := m.mergeSort fun a b => a.1 ≤ b.1
+
+def strHex (s : String) : String := if s.isEmpty then "-" else toHex (s.toList.map fun c => UInt8.ofNat c.toNat)
+
 def showState (s : State) : String :=
   let acts := s.p.actions.map fun (n, b) => s!"{n}({"/".intercalate (b.map kwName)})"
   let marks := (names s.p.wells).filter fun w => s.mark.contains w
-  ";".intercalate (s.p.wells.map (showWell s) ++ s.p.groups.map showGroup ++ [s!"A:{"/".intercalate acts}", s!"M:{"/".intercalate marks}"])
+  let lists := (sortByKey s.p.wlists).map fun (n, ws) => s!"{n}({"/".intercalate ws})"
+  let tests := (sortByKey s.p.wtest).map fun (n, t) => s!"{n}:{t.reasons}:{evalVal t.interval}:{t.num}:{evalVal t.startup}:{t.step}"
+  let udqs := s.p.udq.map fun (n, u) =>
+    let d := match u.define with | some x => strHex x | none => "-"
+    let un := match lookup s.p.udqUnits n with | some x => strHex x | none => "-"
+    s!"{n}:{u.action}:{u.insertIdx}:{u.typedIdx}:{d}:{un}"
+  let ns := match s.p.nextstep with
+    | some (v, a) => s!"{evalVal v}:{b01 a}"
+    | none => "-"
+  ";".intercalate (s.p.wells.map (showWell s) ++ s.p.groups.map showGroup ++
+    [s!"A:{"/".intercalate acts}", s!"M:{"/".intercalate marks}", s!"L:{"/".intercalate lists}", s!"T:{"/".intercalate tests}",
+     s!"U:{"/".intercalate udqs}", s!"N:{ns}", s!"H:{s.p.whistctl}"])
 
 def showBlocks (bs : List (Block CKw)) : String :=
   let times := ",".intercalate (bs.map fun b => toString (b.start / 1000))
   let kws := bs.map fun b => ",".intercalate (b.kws.map kwName)
   s!"{bs.length}|{times}|{"|".intercalate kws}"
+
+def ttypeName : TType → String
+  | .start => "START" | .dates => "DATES" | .tstep => "TSTEP" | .restart => "RESTART"
+
+/-- Restarted runs: block count, time types, start and end times (seconds), keyword names. -/
+def showBlocksR (bs : List (Block CKw)) : String :=
+  let tys := ",".intercalate (bs.map fun b => ttypeName b.ttype)
+  let times := ",".intercalate (bs.map fun b => toString (b.start / 1000))
+  let stops := ",".intercalate (bs.map fun b => match b.stop with | some t => toString (t / 1000) | none => "-")
+  let kws := bs.map fun b => ",".intercalate (b.kws.map kwName)
+  s!"{bs.length}|{tys}|{times}|{stops}|{"|".intercalate kws}"
+
+/-- The keywords loaded from the skipped part of a restarted run. -/
+def skiprestWhitelist (k : CKw) : Bool :=
+  ["VFPPROD", "VFPINJ", "RPTSCHED", "RPTRST", "TUNING", "MESSAGES"].contains (kwName k)
 
 def parseApp (s : String) : Option (Nat × String × List String) :=
   match s.splitOn ":" with
@@ -160,6 +300,13 @@ def handleOp (op : String) (args : List String) : String :=
     | some t, some kws =>
       match blocks t kws with
       | .ok bs => showBlocks bs
+      | .error _ => "err"
+    | _, _ => "bad-op"
+  | "sched.rblocks", [st, rstep, rtime, skip, enc] =>
+    match parseStart st, parseEnc enc with
+    | some t, some kws =>
+      match rblocks { rstep := rstep.toNat!, rtime := (rtime.toNat! : Int) * 1000, skiprest := skip = "1" } skiprestWhitelist t kws with
+      | .ok bs => showBlocksR bs
       | .error _ => "err"
     | _, _ => "bad-op"
   | "sched.obs", [k, cs, st, enc] =>
